@@ -440,9 +440,10 @@ type runner struct {
 	dropped3 []row
 	dropped4 []row
 	// crash phase: the candidate sets (label -> rows); a wrong answer is classified by the subset of them that explains it
-	sets   map[string][]row
-	prefer map[string]int // measurement -> subset (bit mask over the sorted labels) that explained a raw select in this phase
-	late   bool           // takes part in the late phase
+	sets      map[string][]row
+	prefer    map[string]int // measurement -> subset (bit mask over the sorted labels) that explained a raw select in this phase
+	late      bool           // takes part in the late phase
+	lastWrite time.Time
 }
 
 func fullMst(h *History, m string) string {
@@ -867,13 +868,21 @@ func (rn *runner) readAll(phase string, prime bool) {
 				o.Extra = rn.classify(m, &sh.Shape, sh.field, sh.kind, o.Rows, o.Want)
 			}
 			// (an answer that is exactly "expected + dropped rows" is a persistent leak, not worth asking again)
-			if !o.OK && attempt < 4 && !strings.HasPrefix(o.Extra, "dropped-only") {
+			// ... and within 14 s of the history's last write a wrong answer may be a cached tag filter that does not know the
+			// newest series yet (the tag-filter cache is refreshed up to 10 s after the index flush - for any new series, dropped
+			// before or not): it is asked again until that time has passed
+			fresh := time.Since(rn.lastWrite) < 14*time.Second
+			if !o.OK && (attempt < 4 || fresh) && !strings.HasPrefix(o.Extra, "dropped-only") {
 				// ask again: an answer that is wrong once and right on the immediate retry is recorded as transient
 				if attempt == 0 {
 					o.First = append([]string{}, o.Rows...)
 				}
 				attempt++
-				time.Sleep(250 * time.Millisecond)
+				if attempt > 4 {
+					time.Sleep(500 * time.Millisecond)
+				} else {
+					time.Sleep(250 * time.Millisecond)
+				}
 				goto again
 			}
 			if o.OK && attempt > 0 {
@@ -1166,6 +1175,7 @@ func (rn *runner) writePoints(ps []Point) error {
 		sb.WriteString(lineOf(rn.h.Series[p.S], p.T, p.V))
 		sb.WriteByte('\n')
 	}
+	rn.lastWrite = time.Now()
 	refused, err := rn.s.write(rn.h.DB, rn.h.RP, sb.String())
 	for _, m := range refused {
 		rn.out.Refused = append(rn.out.Refused, fmt.Sprintf("%d points from t=%d: %.160s", len(ps), ps[0].T, m))
